@@ -333,6 +333,11 @@ def templates(cls):
         "upsert": [["into", [["src", "T"]]], ["insert", [["raw", 1], ["raw", 2]]], ["on_conflict", [A]], ["do_update", [B, ["add", B, ["raw", 1]]]], ["where", [["gt", B, ["raw", 0]]]]],
         "upsert_target_where": [["into", [["src", "T"]]], ["insert", [["raw", 1], ["raw", 2]]], ["on_conflict", [["py", "a"]]], ["where", [["gt", A, ["raw", 0]]]], ["do_update", [["py", "b"], ["raw", 3]]]],
         "window": [["from_", [["src", "T"]]], ["join", [["src", "U"], ["enum", "JoinType", "inner"]], {}, ["on", [["eq", UA, A]]]], ["select", [["call", ["call", ["an", "Sum", [B]], "over", [A]], "orderby", [B]]]]],
+        # the handler of an upsert INTO another table refers to OLD (scalar subqueries in the SET value and in both WHEREs)
+        "upsert_other_target": [["into", [["src", "U"]]], ["insert", [["raw", 1], ["raw", 2]]], ["on_conflict", [["py", "a"]]], ["where", [["gt", ["col", "U", "a"], ["subq", SUB_T]]]],
+                                ["do_update", [["py", "b"], ["subq", SUB_T]]], ["where", [["in", ["col", "U", "b"], ["q", SUB_T]]]]],
+        "upsert_select_other_target": [["into", [["src", "U"]]], ["from_", [["src", "T"]]], ["select", [A, B]], ["where", [["gt", B, ["raw", 0]]]], ["on_conflict", [["py", "a"]]],
+                                       ["do_update", [["py", "b"], ["subq", SUB_T]]]],
         "window_filter": [["from_", [["src", "T"]]], ["join", [["src", "U"], ["enum", "JoinType", "inner"]], {}, ["on", [["eq", UA, A]]]],
                           ["select", [["call", ["call", ["call", ["an", "Sum", [B]], "filter", [["gt", A, ["raw", 1]]]], "over", [A]], "orderby", [B]]]]],
         "agg_filter": [["from_", [["src", "T"]]], ["join", [["src", "U"], ["enum", "JoinType", "inner"]], {}, ["on", [["eq", UA, A]]]], ["select", [["call", ["fn", "Sum", [B]], "filter", [["gt", A, ["raw", 1]]]]]]],
